@@ -46,7 +46,7 @@ try:
             if os.path.exists(f): os.remove(f)
     def rundemo():
         pk=sorted({pd for _,pd in placed if os.path.isdir(os.path.join(wt,pd))})
-        race=" -race -tags verif" if ID in("C11","C17","C18") else ""
+        race=" -race -tags verif" if (ID in("C11","C17","C18") or os.environ.get("SEED_RACE")=="1") else ""
         names=[]
         for d,_ in placed:
             names+=re.findall(r"(?m)^func (Test\w+)\(",open(d).read())
